@@ -30,14 +30,15 @@ def build_all():
         return dict(zip(CONFIGS, ex.map(build, CONFIGS)))
 
 
-HIST_RX = re.compile(r'ph=(\w+) hist=([0-9,\-]+) ')
+HIST_RX = re.compile(r'tier=(\w+) ph=(\w+) hist=([0-9,\-]+) ')
 
 
 def run_single(binary, tier, desc, cfg):
     m = HIST_RX.search(desc)
     if not m:
         return None
-    p = subprocess.run([binary, '--tier', tier, '--cfg', cfg, '--single', m.group(1), m.group(2)],
+    # operation numbers depend on the tier (and build) that recorded the history: take the tier from the case text
+    p = subprocess.run([binary, '--tier', m.group(1), '--cfg', cfg, '--single', m.group(2), m.group(3)],
                        capture_output=True, timeout=120)
     return p
 
@@ -144,6 +145,7 @@ def replay(r, tier):
             if f[1] == r['target'] and f[2] == r['clause']:
                 bad = True
     if bad:
-        print('VIOLATION property=%s replay=%s' % (PROP, 'replay/%s' % PROP))
+        slug = re.sub(r'[^A-Za-z0-9_.-]+', '_', '%s-%s' % (r['target'], r['clause']))[:100]
+        print('VIOLATION property=%s replay=%s' % (PROP, os.path.join(core.VERIF, 'replay', PROP, slug + '.replay')))
         return 1
     return 0
